@@ -137,7 +137,10 @@ impl SimHooks for World {
 
     fn io(&self, op: &IoOp<'_>) -> IoVerdict {
         if let Some(s) = &self.sched {
-            s.yield_point("io");
+            match op {
+                IoOp::Create { .. } | IoOp::Rename { .. } | IoOp::Remove { .. } | IoOp::Mkdir { .. } => s.yield_point_rare("io_dir"),
+                _ => s.yield_point("io"),
+            }
         }
         self.disk.lock().unwrap().io(op)
     }
